@@ -659,6 +659,39 @@ func (w *World) Eval(n *Node) (interface{}, error) {
 	return n.prim(), nil
 }
 
+// HeadErr evaluates n only as far as walking a path THROUGH it requires: a chain of plain references is followed
+// to the setting it ends at, whose members are not evaluated; spliced text is evaluated completely. It returns
+// the failure of that shallow evaluation, if any.
+func (w *World) HeadErr(n *Node) error {
+	if n.K != "expr" {
+		return nil
+	}
+	name, ok := DirectName(n.Expr)
+	if !ok {
+		_, err := w.evalParts(n.Expr)
+		return err
+	}
+	w.use(name)
+	if w.active(name) {
+		if _, ok := w.resolver(name); ok {
+			w.Absorbed = true
+			return nil
+		}
+		return ErrCyclic
+	}
+	w.stack = append(w.stack, name)
+	defer func() { w.stack = w.stack[:len(w.stack)-1] }()
+	if rv, home, ok := w.lookup(name); ok {
+		var err error
+		w.at(home, func() { err = w.HeadErr(rv) })
+		return err
+	}
+	if _, ok := w.resolver(name); ok {
+		return nil
+	}
+	return ErrMissing
+}
+
 // ---------------------------------------------------------------------------
 // generators
 
